@@ -637,7 +637,7 @@ func (vc *VC) assumeWF(pc string, term string, t types.Type, st *State, depth in
 	case *types.Slice:
 		nr := vc.nextR(st)
 		if vc.mode == Math {
-			vc.assume(pc, fmt.Sprintf("(and (<= 0 (s.rgn %s)) (< (s.rgn %s) %s) (<= 0 (s.off %s)) (<= 0 (s.len %s)) (<= (s.len %s) (s.cap %s)))", term, term, nr, term, term, term, term))
+			vc.assume(pc, fmt.Sprintf("(and (<= 0 (s.rgn %s)) (< (s.rgn %s) %s) (<= 0 (s.off %s)) (< (s.off %s) 140737488355328) (<= 0 (s.len %s)) (<= (s.len %s) (s.cap %s)) (< (s.cap %s) 140737488355328))", term, term, nr, term, term, term, term, term, term))
 		} else {
 			lim := "#x0000800000000000"
 			vc.assume(pc, fmt.Sprintf("(and (<= 0 (s.rgn %s)) (< (s.rgn %s) %s) (bvult (s.off %s) %s) (bvule (s.len %s) (s.cap %s)) (bvult (s.cap %s) %s))", term, term, nr, term, lim, term, term, term, lim))
